@@ -288,6 +288,96 @@ pub fn run_stream(args: &Args) -> (u64, u64) {
             }
         }
     }
+    // every entry point inside one stream: headers read through fragmenting / interrupting readers and written through
+    // fragmenting writers, the array calls, split / clone / (vanilla) unsplit after UNBALANCED traffic, and two
+    // connections with different keys taking turns on this thread - the stream must stay the specification's stream
+    for round in 0..(if thorough { 30 } else { 4 }) {
+        c.reset("stream-entrypoints");
+        let Some((mut cl, mut sv)) = pair(&mut c, exp, "ENTRY", rnd40(&mut rng), None, rng.gen()) else { continue };
+        let Some((mut cl2, mut sv2)) = pair(&mut c, exp, "OTHER", rnd40(&mut rng), None, rng.gen()) else { continue };
+        let small: [u32; 8] = [0, 1, 2, 3, 4, 5, 6, 0x100];
+        for step in 0..(if thorough { 40 } else { 24 }) {
+            let size = if step < 8 { small[step] } else if exp == "wrath" && step % 5 == 0 { rng.gen_range(0x8000..=0x7FFFFF) } else { rng.gen_range(0..=0x7FFF) };
+            let op = OPCODES[(step + round) % OPCODES.len()];
+            let via = if step % 2 == 0 { "combined" } else { "half" };
+            // server -> client
+            let frag = |rng: &mut StdRng, bytes: &[u8]| -> Vec<Step> {
+                let mut sc = vec![];
+                let mut off = 0;
+                while off < bytes.len() {
+                    if rng.gen_range(0..3) == 0 { sc.push(Step::Intr); }
+                    let n = rng.gen_range(1..=3usize).min(bytes.len() - off);
+                    sc.push(Step::Data(bytes[off..off + n].to_vec()));
+                    off += n;
+                }
+                sc
+            };
+            let h = if step % 3 == 2 {
+                // through the Write wrapper, the writer taking one to three bytes at a time
+                let before = sv.enc_clone();
+                let wire = wire_server(exp, size, op);
+                let mut ws = vec![];
+                let mut left = wire.len() + if exp == "wrath" && size > 0x7FFF { 0 } else { 0 };
+                while left > 0 { let n = rng.gen_range(1..=3usize).min(left); ws.push(Step::Accept(n)); left -= n; }
+                c.write_hdr(&mut sv, "server", size, op as u32, &ws, via);
+                // what went to the wire = the raw operation on the pre-call clone
+                before.map(|mut e| { let mut bb = wire.clone(); e.encrypt(&mut bb); bb })
+            } else {
+                c.enc_server_hdr(&mut sv, size, op, via)
+            };
+            if let Some(h) = h {
+                c.sent = Some((size, op as u32));
+                if step % 4 == 1 && h.len() == 4 && exp != "wrath" {
+                    let mut a4 = [0u8; 4];
+                    a4.copy_from_slice(&h);
+                    c.dec_server_hdr(&mut cl, a4, via);
+                } else {
+                    let sc = frag(&mut rng, &h);
+                    c.read_hdr(&mut cl, "server", &sc, via);
+                }
+            }
+            // client -> server (small sizes included: nothing about a header's VALUE is checked by the cipher)
+            let op32 = [0u32, 0xFFFF, 0x10000, 0x0100_0000, 0xFFFF_FFFF, 0x1DC, 0x00FF_0000][(step + round) % 7];
+            if let Some(h) = c.enc_client_hdr(&mut cl, (size & 0xFFFF) as u16, op32, via) {
+                c.sent = Some((size & 0xFFFF, op32));
+                if step % 4 == 3 {
+                    let mut a6 = [0u8; 6];
+                    a6.copy_from_slice(&h);
+                    c.dec_client_hdr(&mut sv, a6, via);
+                } else {
+                    let sc = frag(&mut rng, &h);
+                    c.read_hdr(&mut sv, "client", &sc, via);
+                }
+            }
+            c.sent = None;
+            // the other connection takes a turn (nothing may be shared between objects)
+            if step % 3 == 0 {
+                stream_dir(&mut c, &mut rng, &mut cl2, &mut sv2, 9, false);
+                if let Some(h2) = c.enc_server_hdr(&mut sv2, if exp == "wrath" { 0x12345 } else { 0x1234 }, 0x1EE, "combined") {
+                    c.read_hdr(&mut cl2, "server", &[Step::Data(h2)], "combined");
+                }
+            }
+            // unbalanced extra traffic in one direction, then split / clone / unsplit
+            if step % 6 == 4 {
+                let extra = 1 + (step + 3 * round) % 7;
+                stream_dir(&mut c, &mut rng, &mut sv, &mut cl, extra, false);
+            }
+            if step == 9 || step == 17 {
+                c.split(&mut cl);
+                c.split(&mut sv);
+            }
+            if step == 13 || step == 21 {
+                if exp == "vanilla" {
+                    c.unsplit(&mut cl, None);
+                    c.unsplit(&mut sv, None);
+                } else {
+                    let k = c.clone_conn(&cl);
+                    c.drop_conn(&cl);
+                    cl = k;
+                }
+            }
+        }
+    }
     // many keys, short traffic: key derivation of both halves on both sides
     let nkeys = args.n.unwrap_or(if thorough { 3000 } else { 150 });
     let mut base = rnd40(&mut rng);
@@ -508,6 +598,41 @@ pub fn run_wrathhdr(args: &Args) -> (u64, u64) {
             wrath_deliver(&mut c, &mut rng, &mut cl, &bytes, p, (size, op));
         }
     }
+    // several connections served by ONE thread, their long headers interleaved at the two-step point (A's first four
+    // bytes, B's first four bytes, A's fifth, B's fifth; a short header of C in between) - nothing is shared
+    for r in 0..(if thorough { 20 } else { 3 }) {
+        c.reset("wrathhdr-interleaved");
+        let mut conns = vec![];
+        for k in 0..3u32 {
+            if let Some(p) = pair(&mut c, "wrath", "MULTI", rnd40(&mut rng), None, k + r) { conns.push(p); }
+        }
+        if conns.len() < 3 { continue; }
+        for step in 0..12u32 {
+            let mut pending: Vec<(usize, Vec<u8>, (u32, u16))> = vec![];
+            for k in 0..3usize {
+                let long = (step as usize + k) % 3 != 2;
+                let size = if long { 0x8000 + rng.gen_range(0..0x7F_8000u32) } else { rng.gen_range(0..0x8000u32) };
+                let op: u16 = rng.gen();
+                let Some(bytes) = c.enc_server_hdr(&mut conns[k].1, size, op, "combined") else { continue };
+                let mut a4 = [0u8; 4];
+                a4.copy_from_slice(&bytes[..4]);
+                c.sent = Some((size, op as u32));
+                let via = if (step as usize + k) % 2 == 0 { "combined" } else { "half" };
+                if let Some(None) = c.wrath_attempt(&mut conns[k].0, a4, via) {
+                    pending.push((k, bytes, (size, op)));
+                }
+            }
+            // complete in the same or in reverse order
+            if step % 2 == 1 { pending.reverse(); }
+            for (k, bytes, sent) in pending {
+                if bytes.len() == 5 {
+                    c.sent = Some((sent.0, sent.1 as u32));
+                    c.wrath_complete(&mut conns[k].0, bytes[4], "half");
+                }
+            }
+            c.sent = None;
+        }
+    }
     // beyond the listed properties (named deviation of the specification): sizes above 0x7FFFFF lose their high byte
     {
         c.reset("wrathhdr-wide");
@@ -529,6 +654,9 @@ pub fn run_wrathhdr(args: &Args) -> (u64, u64) {
         let (_, dec0) = clw.split();
         for op in ops {
             for blk in &blocks {
+                if blk % 16 == 0 && *blk > 0 {
+                    c.reset("wrathhdr-sizesweep");
+                }
                 let mut hasher = Sha1::new();
                 let mut panicked = false;
                 for size in (blk * 4096)..((blk + 1) * 4096) {
@@ -953,6 +1081,31 @@ pub fn run_halves(args: &Args) -> (u64, u64) {
         c.call(&mut a, "dec", &w, "combined");
         if i % 10 == 9 { c.reset("unsplit"); }
     }
+    // the SAME key in halves of different origin: another object built from the same key and split on its own, and a
+    // clone's decrypter - re-joining must succeed (it depends on the key alone) and the joined object carries on
+    c.reset("unsplit-samekey");
+    for i in 0..(if args.tier == "thorough" { 24usize } else { 6 }) {
+        let Some((mut a, _)) = pair(&mut c, "vanilla", "UNSPLIT", key, None, 1) else { continue };
+        let Some((mut b2, _)) = pair(&mut c, "vanilla", "UNSPLIT", key, None, 1) else { continue };
+        let mut w = vec![0u8; 3 + i];
+        rng.fill_bytes(&mut w);
+        c.call(&mut a, "enc", &w, "combined");
+        c.call(&mut b2, "dec", &w[..1 + i % 3], "combined");
+        c.split(&mut a);
+        if i % 2 == 0 {
+            c.split(&mut b2);
+            let State::Parts(_, De::V(d_other)) = b2.st.clone() else { unreachable!() };
+            c.unsplit(&mut a, Some((b2.hd, d_other)));
+        } else {
+            let mut k = c.clone_conn(&a);
+            c.call(&mut k, "dec", &w[..2], "half");
+            let State::Parts(_, De::V(d_other)) = k.st.clone() else { unreachable!() };
+            c.unsplit(&mut a, Some((k.hd, d_other)));
+        }
+        c.call(&mut a, "enc", &w, "combined");
+        c.call(&mut a, "dec", &w, "combined");
+        if i % 6 == 5 { c.reset("unsplit-samekey"); }
+    }
     // two-thread schedules: each thread owns one half; TLC's schedule is followed in lock-step
     fn assert_send<T: Send>() {}
     assert_send::<En>();
@@ -1144,17 +1297,69 @@ pub fn run_hdradv(args: &Args) -> (u64, u64) {
                 rng.fill_bytes(&mut junk);
                 c.read_hdr(&mut sv, "client", &[Step::Data(junk)], via);
             }
+            // the peer chooses the PLAINTEXT the victim will see: degenerate field values in correctly encrypted headers
+            // (size 0..3 - smaller than the opcode it is said to include -, 0xFFFF, opcode 0 / all ones; for Wrath the
+            // long-header marker with size zero), through the array call and the read-based call
+            {
+                let plains6: [[u8; 6]; 7] = [[0, 0, 0, 0, 0, 0], [0, 1, 1, 0, 0, 0], [0, 2, 0xFF, 0xFF, 0xFF, 0xFF], [0, 3, 0, 0, 0, 0x80],
+                                             [0xFF, 0xFF, 0xFF, 0xFF, 0xFF, 0xFF], [0x80, 0, 0, 0, 0, 0], [0, 4, 0xDC, 1, 0, 0]];
+                for (k, p6) in plains6.iter().enumerate() {
+                    if let Some(ct) = c.call(&mut cl, "enc", p6, via) {
+                        if (k + round) % 2 == 0 {
+                            let mut a6 = [0u8; 6];
+                            a6.copy_from_slice(&ct);
+                            c.dec_client_hdr(&mut sv, a6, via);
+                        } else {
+                            c.read_hdr(&mut sv, "client", &[Step::Data(ct[..2].to_vec()), Step::Intr, Step::Data(ct[2..].to_vec())], via);
+                        }
+                    }
+                }
+                let plains4: [[u8; 4]; 6] = [[0, 0, 0, 0], [0, 1, 0, 0], [0, 2, 0xFF, 0xFF], [0xFF, 0xFF, 0xFF, 0xFF], [0x7F, 0xFF, 0, 0], [0, 3, 0xEE, 1]];
+                for (k, p4) in plains4.iter().enumerate() {
+                    if let Some(ct) = c.call(&mut sv, "enc", p4, via) {
+                        if exp == "wrath" {
+                            if (k + round) % 2 == 0 {
+                                let mut a4 = [0u8; 4];
+                                a4.copy_from_slice(&ct);
+                                c.wrath_attempt(&mut cl, a4, via);
+                            } else {
+                                c.read_hdr(&mut cl, "server", &[Step::Data(ct)], via);
+                            }
+                        } else if (k + round) % 2 == 0 {
+                            let mut a4 = [0u8; 4];
+                            a4.copy_from_slice(&ct);
+                            c.dec_server_hdr(&mut cl, a4, via);
+                        } else {
+                            c.read_hdr(&mut cl, "server", &[Step::Data(ct)], via);
+                        }
+                    }
+                }
+                if exp == "wrath" {
+                    for p5 in [[0x80u8, 0, 0, 0, 0], [0x80, 0, 1, 0xFF, 0xFF], [0xFF, 0xFF, 0xFF, 0xFF, 0xFF]] {
+                        if let Some(ct) = c.call(&mut sv, "enc", &p5, via) {
+                            c.read_hdr(&mut cl, "server", &[Step::Data(ct)], via);
+                        }
+                    }
+                }
+            }
             // the public from_array parsers on arbitrary bytes
-            for _ in 0..4 {
+            for j in 0..8u8 {
                 let mut b6 = [0u8; 6];
                 rng.fill_bytes(&mut b6);
-                let sh = wow_srp::vanilla_header::ServerHeader::from_array([b6[0], b6[1], b6[2], b6[3]]);
-                let ch = wow_srp::vanilla_header::ClientHeader::from_array(b6);
-                let ws = wow_srp::wrath_header::ServerHeader::from_small_array([b6[0], b6[1], b6[2], b6[3]]);
-                let wl = wow_srp::wrath_header::ServerHeader::from_large_array([b6[0], b6[1], b6[2], b6[3], b6[4]]);
-                c.tr.ev(json!({"ev": "ParseHdr", "bytes": b(&b6),
-                    "server": {"size": sh.size, "opcode": sh.opcode}, "client": {"size": ch.size, "opcode": u32le(ch.opcode)},
-                    "small": {"size": ws.size, "opcode": ws.opcode}, "large": {"size": wl.size, "opcode": wl.opcode}}));
+                if j >= 4 { b6[0] = 0; b6[1] = j - 4; }
+                let r = guard(|| {
+                    let sh = wow_srp::vanilla_header::ServerHeader::from_array([b6[0], b6[1], b6[2], b6[3]]);
+                    let ch = wow_srp::vanilla_header::ClientHeader::from_array(b6);
+                    let ws = wow_srp::wrath_header::ServerHeader::from_small_array([b6[0], b6[1], b6[2], b6[3]]);
+                    let wl = wow_srp::wrath_header::ServerHeader::from_large_array([b6[0], b6[1], b6[2], b6[3], b6[4]]);
+                    json!({"ev": "ParseHdr", "bytes": b(&b6),
+                        "server": {"size": sh.size, "opcode": sh.opcode}, "client": {"size": ch.size, "opcode": u32le(ch.opcode)},
+                        "small": {"size": ws.size, "opcode": ws.opcode}, "large": {"size": wl.size, "opcode": wl.opcode}})
+                });
+                match r {
+                    Ok(ev) => c.tr.ev(ev),
+                    Err(m) => c.tr.ev(json!({"ev": "ParseHdr", "bytes": b(&b6), "res": panic_res(&m)})),
+                }
             }
             let mut big = vec![0u8; rng.gen_range(0..600)];
             rng.fill_bytes(&mut big);
